@@ -275,6 +275,7 @@ struct Agg {
     refs_crashed: u64,
     degraded: u64,
     digest_mismatches: u64,
+    ext_block_execs: u64,
     engines: BTreeMap<String, u64>,
     programs: HashSet<u64>,
 }
@@ -308,6 +309,7 @@ impl Agg {
             refs_crashed: 0,
             degraded: 0,
             digest_mismatches: 0,
+            ext_block_execs: 0,
             engines: BTreeMap::new(),
             programs: HashSet::new(),
         }
@@ -325,6 +327,9 @@ impl Agg {
         }
         if r.digest_mismatch {
             self.digest_mismatches += 1;
+        }
+        if r.ext_blocks > 0 {
+            self.ext_block_execs += 1;
         }
         if r.stratum == "C" {
             let e = if r.degraded { "sequential (degraded)".to_string() } else { r.engine.clone() };
@@ -775,6 +780,7 @@ fn cmd_run(args: &[String]) -> i32 {
             "executions_per_stratum": agg.per_stratum,
             "stratum_C_executions_not_interleaved": agg.degraded,
             "stratum_C_engines": engines_note,
+            "stratum_C_executions_with_a_real_block_routed_around": agg.ext_block_execs,
             "stratum_C_executions_per_engine": agg.engines,
             "api_calls_executed": agg.calls,
             "calls_judged_against_reference": agg.judged,
@@ -1007,6 +1013,19 @@ fn main() {
         },
         Some("selfcheck") => cmd_selfcheck(&args),
         Some("probe") => cmd_probe(&args),
+        Some("runplan") => {
+            seams::install();
+            let p: Plan = serde_json::from_str(&std::fs::read_to_string(&args[2]).expect("read plan")).expect("parse plan");
+            let n: usize = args.get(3).and_then(|s| s.parse().ok()).unwrap_or(1);
+            for k in 0..n {
+                let t = std::time::Instant::now();
+                match forkrun::run_forked(&p, 15_000) {
+                    Ok(o) => println!("run {k}: ok digest {:016x} steps {} ext_blocks {} noreturn {:?} herr {:?} ({:?})", o.digest, o.steps, o.ext_blocks, o.noreturn, o.harness_error, t.elapsed()),
+                    Err(e) => println!("run {k}: FAILED {e:?} ({:?})", t.elapsed()),
+                }
+            }
+            0
+        }
         _ => {
             eprintln!("usage: sim run [--tier quick|thorough] [--seed N] | replay <file> | minimize <in> <out> | selfcheck");
             2
